@@ -155,6 +155,70 @@ class FunctionResult:
         self.pre_heap = {}
 
 
+def inject_ghost_code(fi, contract):
+    """ghost_code(at='entry' | after='<statement text>' | before='<statement text>', code='<python statements>'):
+    sidecar ghost statements woven into a *copy* of the FunctionDef that the generator interprets (the file in /repo is untouched).
+    Ghost code may only assign ghost_* names (or their elements) and may not call anything but len / np.zeros / range / set / list:
+    it cannot influence the real computation.  An anchor that no longer occurs in the source degrades the function."""
+    import copy
+    node = copy.deepcopy(fi.node)
+    for cl in contract.of('ghost_code'):
+        code = ast.literal_eval(cl.kw['code'])
+        stmts = ast.parse(code).body
+        for stt in stmts:
+            for n in ast.walk(stt):
+                if isinstance(n, (ast.Assign, ast.AugAssign)):
+                    for t in (n.targets if isinstance(n, ast.Assign) else [n.target]):
+                        r = t
+                        while isinstance(r, (ast.Subscript, ast.Attribute)):
+                            r = r.value
+                        if not (isinstance(r, ast.Name) and r.id.startswith('ghost_')):
+                            raise Unsupported('ghost code assigns a program variable: %s' % ast.unparse(t))
+                elif isinstance(n, ast.Call):
+                    if ast.unparse(n.func) not in ('len', 'np.zeros', 'range', 'set', 'list', 'int'):
+                        raise Unsupported('ghost code calls %s' % ast.unparse(n.func))
+                elif isinstance(n, (ast.For, ast.While, ast.Return, ast.Raise, ast.Delete, ast.Global, ast.Nonlocal)):
+                    raise Unsupported('ghost code contains control flow that could alter the real computation')
+        if 'at' in cl.kw and ast.literal_eval(cl.kw['at']) == 'entry':
+            body = node.body
+            k = 1 if (body and isinstance(body[0], ast.Expr) and isinstance(body[0].value, ast.Constant)) else 0
+            anchor = body[k] if k < len(body) else body[-1]
+            for stt in stmts:
+                for n in ast.walk(stt):
+                    ast.copy_location(n, anchor) if hasattr(n, 'lineno') or isinstance(n, (ast.stmt, ast.expr)) else None
+            body[k:k] = stmts
+            continue
+        where = 'after' if 'after' in cl.kw else 'before'
+        anchor_txt = ast.unparse(ast.parse(ast.literal_eval(cl.kw[where])).body[0])
+        done = False
+        for parent in ast.walk(node):
+            for fld in ('body', 'orelse', 'finalbody'):
+                blk = getattr(parent, fld, None)
+                if not isinstance(blk, list):
+                    continue
+                for k, stt in enumerate(blk):
+                    if isinstance(stt, ast.stmt) and not any(stt is g for g in stmts) and ast.unparse(stt) == anchor_txt and not done:
+                        for g in stmts:
+                            for n in ast.walk(g):
+                                if isinstance(n, (ast.stmt, ast.expr)):
+                                    ast.copy_location(n, stt)
+                        pos = k + 1 if where == 'after' else k
+                        blk[pos:pos] = stmts
+                        done = True
+                        break
+                if done:
+                    break
+            if done:
+                break
+        if not done:
+            raise Unsupported('ghost code anchor %r not found in %s' % (anchor_txt, fi.qualname))
+    ast.fix_missing_locations(node)
+    import copy as _c
+    fi2 = _c.copy(fi)
+    fi2.node = node
+    return fi2
+
+
 def verify_function(prog, db, q, contract, case=None):
     case = case or {}
     import itertools
@@ -170,6 +234,12 @@ def verify_function(prog, db, q, contract, case=None):
     if decs:        # a decorator replaces the function by something the generator does not interpret (caches, wrappers)
         fr.degraded = 'function %s is wrapped by decorator(s) %s, which the VC generator does not interpret' % (q, ', '.join(decs))
         return fr
+    if contract.of('ghost_code'):
+        try:
+            fi = inject_ghost_code(fi, contract)
+        except Unsupported as u:
+            fr.degraded = str(u)
+            return fr
     ex.cur = fi
     ex.init_case_index = case.get('init', 0)
     if 'assign_shape' in case:
@@ -341,6 +411,10 @@ def verify_function(prog, db, q, contract, case=None):
                         s.pc[:] = loc.pc
                         ex.oblige(s, 'post', g, a, text='ensures ' + ast.unparse(a)[:140])
                         s.assume(g)      # cut: later obligations of this path may use an ensures clause that has its own obligation
+                for cl in contract.of('ensures_assumed'):
+                    # a postcondition the callers rely on but that is NOT proved for this body: a stated assumption, bounded tier only
+                    for a in cl.args:
+                        ex.use('ASSUMED(post): %s ensures %s -- %s' % (q.rsplit('.', 1)[-1], ast.unparse(a)[:90], ast.literal_eval(cl.kw['why']) if 'why' in cl.kw else 'decided by the bounded tier only'))
                 for cl in contract.of('ensures_exists'):
                     # existential over the named locals of the path (the witnesses); concretely they are computed by witness(...)
                     for a in cl.args:
@@ -412,7 +486,11 @@ def verify_function(prog, db, q, contract, case=None):
                     if 'may' in cl.kw:
                         g = ex.truth(ex.evs(cl.kw['may'], loc), loc)
                         ex.oblige(s, 'raises:%s' % v, g, cl.kw['may'], text='%s raised only when %s' % (v, ast.unparse(cl.kw['may'])[:120]))
-                    if 'when' in cl.kw:
+                    if 'when' in cl.kw and 'assumed_on_raise' in cl.kw:
+                        # the direction "raised => when" is NOT proved for this function: it is a stated assumption (decided by the
+                        # bounded tier only); the direction "returned => not when" keeps its obligation above
+                        ex.use('ASSUMED(raise side): %s raises %s only when %s -- %s' % (q.rsplit('.', 1)[-1], v, ast.unparse(cl.kw['when'])[:80], ast.literal_eval(cl.kw['assumed_on_raise'])))
+                    elif 'when' in cl.kw:
                         apply_hints(ex, contract, 'raise', loc, s)
                         g = ex.truth(ex.evs(cl.kw['when'], loc), loc)
                         s.pc[:] = loc.pc
